@@ -65,6 +65,13 @@ def _run_one(i):
   except Exception as e:  # pylint: disable=broad-except
     out["error"] = f"{type(e).__name__}: {e}\n" + traceback.format_exc()[-2000:]
   out["secs"] = time.time() - t0
+  try:
+    with open(os.path.join(_OUTDIR or "/tmp", "progress.log"), "a") as fh:
+      slow = [(o["name"], o["status"], round(o["secs"], 1), o["backend"]) for o in out["obligations"]
+              if o["secs"] > 5 or o["status"] != "unsat"][:6]
+      fh.write(f"{task.name}\t{out['secs']:.1f}s\tpaths={out['paths']}\tobl={len(out['obligations'])}\t{slow}\t{(out['error'] or '')[:200]!r}\n")
+  except OSError:
+    pass
   return out
 
 
@@ -89,6 +96,10 @@ def run_tasks(tasks, outdir, jobs=None, overrides=None):
   _OUTDIR = outdir
   _OVERRIDES = overrides
   os.makedirs(outdir, exist_ok=True)
+  try:
+    os.unlink(os.path.join(outdir, "progress.log"))
+  except OSError:
+    pass
   jobs = jobs or min(16, max(1, len(tasks)))
   if jobs == 1 or len(tasks) == 1:
     return [_run_one(i) for i in range(len(tasks))]
@@ -176,24 +187,36 @@ def finish_check(pid, tier, results, t0, *, checker_cmd, not_covered, trusted_ex
   lines = []
   violations = 0
   known_hit = []
+  groups = {}
   for task, o in failed:
     k = _match_known(known, pid, task, o)
     if k is not None:
       known_hit.append(k)
       continue
-    path = os.path.join(outdir, "replay_" + _ctx._safe(task + "__" + o["name"]) + ".json")
+    base = o["name"].split("~")[0]
+    groups.setdefault(base, []).append((task, o))
+  oracle = None
+  if groups and replay is not None:
+    try:
+      oracle = replay()
+    except Exception as e:  # pylint: disable=broad-except
+      oracle = {"error": repr(e), "violations": []}
+  for base, items in groups.items():
+    task, o = items[0]
+    path = os.path.join(outdir, "replay_" + _ctx._safe(base) + ".json")
+    rec = {"property": pid, "obligation": base, "kind": o["kind"], "detail": o["detail"],
+           "tasks": sorted({t for t, _ in items})[:40], "model": o["model"], "smt2": _rel(o["smt2"]),
+           "solver": o["backend"], "solver_output": "sat (negated VC satisfiable)",
+           "functions": {k2: v for k2, v in functions.items() if k2.split(":")[-1].split(".<locals>.")[-1] in base or True}}
     found = False
-    rec = {"property": pid, "task": task, "obligation": o["name"], "kind": o["kind"],
-           "detail": o["detail"], "model": o["model"], "smt2": _rel(o["smt2"]),
-           "solver": o["backend"], "functions": {k2: v for k2, v in functions.items()}}
-    if replay is not None:
-      try:
-        native_rec = replay(o, task)
-        if native_rec:
-          rec["native"] = native_rec
-          found = bool(native_rec.get("violates"))
-      except Exception as e:  # pylint: disable=broad-except
-        rec["native_error"] = repr(e)
+    if oracle is not None:
+      hits = [v for v in oracle.get("violations", []) if _related(v.get("function", ""), base)]
+      if not hits:
+        hits = oracle.get("violations", [])[:3]
+        rec["native_note"] = "native oracle violations below are not matched by name to this obligation"
+      rec["native"] = {"oracle_cases": oracle.get("cases"), "bound": oracle.get("bound"),
+                       "failing_inputs": hits, "error": oracle.get("error")}
+      found = bool(hits)
     with open(path, "w") as fh:
       json.dump(rec, fh, indent=1, default=str)
     violations += 1
@@ -287,6 +310,55 @@ def finish_check(pid, tier, results, t0, *, checker_cmd, not_covered, trusted_ex
         f"unknown={len(unknown)} paths={paths} tasks={len(results)} bounded={len(bounded)} "
         f"wall={time.time()-t0:.1f}s exit={code}")
   return code
+
+
+def _related(fn_name, oblig):
+  parts = [p for p in fn_name.replace("(", ".").replace(")", ".").split(".") if len(p) > 3]
+  return any(p in oblig for p in parts)
+
+
+_ORACLE_CACHE = {}
+
+
+def native_oracle(pid, tier="quick", timeout=3000, extra_args=()):
+  """Runs native/<pid>.py under /venv/bin/python against /repo; returns its JSON."""
+  key = (pid, tier, tuple(extra_args))
+  if key in _ORACLE_CACHE:
+    return _ORACLE_CACHE[key]
+  script = os.path.join(VERIF, "native", pid.lower() + ".py")
+  rc, out, err = native([script, tier] + list(extra_args), timeout=timeout)
+  res = None
+  for line in reversed(out.strip().splitlines()):
+    line = line.strip()
+    if line.startswith("{"):
+      try:
+        res = json.loads(line)
+        break
+      except ValueError:
+        continue
+  if res is None:
+    res = {"error": f"native oracle failed rc={rc}: {err[-800:]}", "violations": [], "cases": 0}
+  _ORACLE_CACHE[key] = res
+  return res
+
+
+def bounded_from_oracle(name, res, known=None):
+  """Turns a native-oracle result into a bounded_checks record."""
+  viol = res.get("violations", [])
+  known_lines = []
+  unknown_viol = []
+  for v in viol:
+    k = None
+    for kk in (known or []):
+      if kk.get("native_match") and kk["native_match"] in json.dumps(v):
+        k = kk
+    if k is None:
+      unknown_viol.append(v)
+    else:
+      known_lines.append(f"KNOWN-FINDING: property={k['property']} {k['what']}")
+  return {"name": name, "bounded": True, "bound": res.get("bound", ""), "cases": res.get("cases", 0),
+          "passed": not unknown_viol and not res.get("error"), "violations": unknown_viol[:10],
+          "error": res.get("error"), "known_lines": sorted(set(known_lines))}
 
 
 def _rel(p):
